@@ -54,10 +54,11 @@ BUILTIN_EXC_BASES = {
 
 
 class Env:
-    __slots__ = ("vars", "parent", "nonlocals", "module", "func", "is_fork")
+    __slots__ = ("vars", "parent", "nonlocals", "module", "func", "is_fork", "globals")
 
     def __init__(self, module, parent=None, func=None):
         self.is_fork = False
+        self.globals = set()
         self.vars = {}
         self.parent = parent
         self.nonlocals = set()
@@ -81,6 +82,9 @@ class Env:
         return False
 
     def set(self, name, v):
+        if name in self.globals:
+            self.module.globals_cache[name] = v
+            return
         if name in self.nonlocals and not self.is_fork:
             e = self.parent
             while e is not None:
@@ -124,6 +128,7 @@ class Interp:
         self.counters = {"calls": 0, "stmts": 0, "loops": 0}
         self.fresh = itertools.count()
         self.unsupported_log = []
+        self.executed = {}                 # qualname -> FuncVal of every repository function interpreted
         from . import npmodel
         self.np = npmodel.NumpyModel(self)
 
@@ -373,6 +378,7 @@ class Interp:
             finally:
                 self.callstack.pop()
         env = self.bind_args(fv, args, kwargs, node)
+        self.executed[fv.qualname] = fv
         is_gen = _is_generator(fv.node)
         if is_gen:
             env.vars["__yield__"] = []
@@ -531,7 +537,8 @@ class Interp:
             env.set(a.asname or a.name, self._resolve_import(env.module, ("from", st.module or "", a.name)))
 
     def st_Global(self, st, env):
-        raise Unsupported("global statement", st)
+        env.globals.update(st.names)
+        self.emit("global-decl", tuple(st.names), st, env)
 
     def st_Nonlocal(self, st, env):
         env.nonlocals.update(st.names)
@@ -852,7 +859,7 @@ class Interp:
         if isinstance(a, E) and isinstance(b, E):
             if a == b:
                 return a
-            return alg.Fn("select", c.key(), a, b)
+            return alg.Fn("select", c.astuple(), a, b)
         if a is b:
             return a
         return Opaque("select of non-E cells")
@@ -1017,6 +1024,11 @@ class Interp:
         return v
 
     def ex_Name(self, n, env):
+        if n.id in env.globals:
+            try:
+                return self.module_global(env.module, n.id)
+            except KeyError:
+                raise RaiseSig(ExcVal("NameError", args=(n.id,), node=n))
         try:
             return env.lookup(n.id)
         except KeyError:
